@@ -11,8 +11,11 @@ from props import common
 
 ID = "C04"
 LEVEL = "proof"
+LEVEL_TEXT = 'Lean 4 theorems over the transcription of every toJsonFragment/fromJsonFragment/ed: decode(encode t) = immut t for all 19 primitives at any nesting (lossless, names and empty sparse containers included), identical re-serialisation, strictness (no null, non-finite numbers as strings), and interchangeability of the reload with the original under zero(), *, + and copy(); tied to /repo by round trips of generated states through the real Factory.fromJson (directly, via string, via file) with the reloaded container used in +, *, zero(), copy(), alone and mixed with live containers.'
+LEVEL_NOTE = "Python's json module (text level) is trusted; known finding C04-bool-category (bool-valued categories) is excluded from the generator. Hypotheses good/uniform/knownCtype are executable and evaluated on the model's copy of every serialised state."
+TECHNIQUE = 'Lean 4 proof (codec round trip for all primitives) + correspondence through the real JSON codec + oracle'
 LEAN_MODULE = "Hg.Props.C04"
-THEOREMS = []
+THEOREMS = ["Hg.C04.decode_encode", "Hg.C04.decode_encode_live", "Hg.C04.encode_immut", "Hg.C04.encode_noNull", "Hg.C04.decode_encode_immut", "Hg.C04.good_immut", "Hg.C04.zero_immut", "Hg.C04.mul_immut", "Hg.C04.add_immut", "Hg.C04.copy_immut"]
 CASES = {"quick": 300, "thorough": 10000}
 RULE = ("random tree (19 primitives in every child/flow position, named and unnamed quantities, depth<=3), two filled states "
         "a, b (possibly empty; optionally pre-combined with + / * / copy), serialised, reloaded and used in +, *, zero(), copy() "
@@ -46,6 +49,8 @@ def build(p):
     else:
         ops.append(("add", "a", "a0", "a0"))
     expect = []
+    for name in ("good", "uniform", "knownctype"):
+        ops.append(("mcheck", [name, "a"], True))
     i_load = len(ops)
     ops.append(("roundtrip", "r", "a"))
     expect.append(("reply", i_load, "ok", "Factory.fromJson rejected a toJson() document"))
